@@ -134,7 +134,12 @@ def decoder_consumers():
             return enc, lambda llr: dec(torch.from_numpy(llr.astype(np.float32)).reshape(1, -1)).detach().numpy().reshape(-1)
         return factory
 
+    Gmix = torch.tensor([[1, 1, 0, 1, 0, 0, 1], [0, 1, 1, 1, 1, 0, 0], [1, 1, 1, 0, 0, 1, 0], [1, 0, 1, 1, 0, 0, 0]], dtype=torch.float32)  # row-mixed Hamming(7,4): no unit columns for some bits
+
     return {
+        "bp_nonsystematic": mk(lambda: E.LinearBlockCodeEncoder(generator_matrix=Gmix), lambda e: D.BeliefPropagationDecoder(e, bp_iters=10)),
+        "min_sum_nonsystematic": mk(lambda: E.LinearBlockCodeEncoder(generator_matrix=Gmix), lambda e: D.MinSumLDPCDecoder(e, bp_iters=10)),
+        "bp_rm": mk(lambda: E.ReedMullerCodeEncoder(1, 3), lambda e: D.BeliefPropagationDecoder(e, bp_iters=10)),
         "bp_ldpc": mk(ldpc, lambda e: D.BeliefPropagationDecoder(e, bp_iters=10)),
         "bp_hamming": mk(lambda: E.HammingCodeEncoder(mu=3), lambda e: D.BeliefPropagationDecoder(e, bp_iters=10)),
         "min_sum_ldpc": mk(ldpc, lambda e: D.MinSumLDPCDecoder(e, bp_iters=10)),
